@@ -155,17 +155,43 @@ void tokenizer_free(TOKEN_SCANNER scanner)
 
 YY_BUFFER_STATE tokenizer_buf(TOKEN_SCANNER scanner)
 {
-  char str[1024];
+  char chunk[1024];
   /* check the reader exists */
   if (scanner->reader != 0)
   {
-    int n = 0;
-    scanner->reader(scanner->handle, str, &n, 1023);
-    if (n > 0)
+    /* a line longer than a chunk comes in several reads: they are put together
+       before the scanner sees them, so that no token is cut at the boundary of
+       two chunks */
+    char * str = 0;
+    size_t len = 0;
+    YY_BUFFER_STATE buf = 0;
+    for (;;)
     {
-      str[n] = '\0';
-      return yy_scan_string(str, scanner->scanner);
+      char * tmp;
+      int n = 0;
+      scanner->reader(scanner->handle, chunk, &n, 1023);
+      if (n <= 0)
+        break;
+      tmp = (char *) realloc(str, len + (size_t) n + 1);
+      if (tmp == 0)
+      {
+        free(str);
+        return 0;
+      }
+      str = tmp;
+      memcpy(str + len, chunk, (size_t) n);
+      len += (size_t) n;
+      str[len] = '\0';
+      /* a full chunk that does not end the line is continued by the next */
+      if (n < 1023 || chunk[n - 1] == '\n')
+        break;
     }
+    if (str != 0)
+    {
+      buf = yy_scan_string(str, scanner->scanner);
+      free(str);
+    }
+    return buf;
   }
   return 0;
 }
